@@ -112,41 +112,44 @@ TargetFault ==
   /\ UNCHANGED <<fc, nlog, minSeen, evald, vMode, vMesh, vCtr, vFlag, vPoll, inc, vHist, vTerm, vFinal>>
 
 (* ---- _init_mesh_ (l.917-1038) ----------------------------------------- *)
-EvalX0 ==
+\* (the actions that depend on an environment choice come in two forms: A_(args) with the
+\*  choice as an argument -- bound to logged values by the trace specification BadsRunRefine --
+\*  and A == \E args : A_(args) for the design model)
+EvalX0_(v) ==
   /\ phase = "start"
-  /\ \E v \in Vals :
-       /\ Called(v, TRUE)
-       /\ inc' = v
+  /\ Called(v, TRUE)
+  /\ inc' = v
   /\ phase' = IF noisy THEN "initdesign" ELSE "noisetest"
   /\ UNCHANGED <<vMode, vMesh, vCtr, vFlag, vPoll, vHist, vTerm, vFinal>>
+EvalX0 == \E v \in Vals : EvalX0_(v)
 
 \* second evaluation at x0, not recorded; differs => stochastic (l.931-939)
-NoiseTest ==
+NoiseTest_(v) ==
   /\ phase = "noisetest"
-  /\ \E v \in Vals :
-       /\ Called(v, FALSE)
-       /\ noisy' = (AutoDetect /\ v # inc)
-       /\ (~AutoDetect => v = inc)
+  /\ Called(v, FALSE)
+  /\ noisy' = (AutoDetect /\ v # inc)
+  /\ (~AutoDetect => v = inc)
   /\ phase' = "initdesign"
   /\ UNCHANGED <<budgetEff, nfinalEff, vMesh, vCtr, vFlag, vPoll, inc, vHist, vTerm, vFinal>>
+NoiseTest == \E v \in Vals : NoiseTest_(v)
 
 \* initial design: each surviving Sobol point is evaluated (l.974-1022);
 \* modelled one evaluation at a time, premain = points still to evaluate
-InitDesignBegin ==
+InitDesignBegin_(n) ==
   /\ phase = "initdesign" /\ premain = 0 /\ pcount = 0
-  /\ \E n \in 0 .. NInitMax :
-       /\ fc + n <= Budget       \* precondition of the budget clause of C03
-       /\ premain' = n
+  /\ fc + n <= Budget           \* precondition of the budget clause of C03
+  /\ premain' = n
   /\ pcount' = 1                 \* marks "design drawn"
   /\ UNCHANGED <<phase, vCount, vMode, vMesh, vCtr, vFlag, pgood, pbest, inc, vHist, vTerm, vFinal>>
+InitDesignBegin == \E n \in 0 .. NInitMax : InitDesignBegin_(n)
 
-InitDesignEval ==
+InitDesignEval_(v) ==
   /\ phase = "initdesign" /\ pcount = 1 /\ premain > 0
-  /\ \E v \in Vals :
-       /\ Called(v, TRUE)
-       /\ inc' = Min2(inc, v)    \* incumbent := argmin over the design (l.1015)
+  /\ Called(v, TRUE)
+  /\ inc' = Min2(inc, v)        \* incumbent := argmin over the design (l.1015)
   /\ premain' = premain - 1
   /\ UNCHANGED <<phase, vMode, vMesh, vCtr, vFlag, pcount, pgood, pbest, vHist, vTerm, vFinal>>
+InitDesignEval == \E v \in Vals : InitDesignEval_(v)
 
 \* _init_optimization_: reserve the final samples (l.1071-1080), train GP
 InitDone ==
@@ -184,17 +187,22 @@ SearchCandidate ==
 \* exactly one evaluation; outcome failure / incremental / success.
 \* deterministic default policy: move iff the value is strictly lower.
 \* noisy: the decision is taken on GP estimates, so any outcome with any value.
-SearchEval ==
+\* v: the value the target returned; w: the value the logger credits to the point -- w = v
+\* unless the point repeats a logged one under specified noise, in which case the record is
+\* merged and w is the precision-weighted mean (any value)
+SearchEval_(v, outcome, merged, w) ==
   /\ phase = "searcheval"
-  /\ \E v \in Vals, outcome \in {"failure", "incremental", "success"},
-        merged \in BOOLEAN :
-       /\ (~noisy => (outcome = "failure") = (v >= inc))
-       /\ (merged => noisy)     \* repeated point merged under specified noise
-       /\ Called(v, ~merged)
-       /\ inc' = IF outcome = "failure" THEN inc ELSE v
-       /\ ss' = IF outcome = "success" THEN ss + 1 ELSE ss
+  /\ (~noisy => (outcome = "failure") = (v >= inc))
+  /\ (merged => noisy)     \* repeated point merged under specified noise
+  /\ (~merged => w = v)
+  /\ Called(v, ~merged)
+  /\ inc' = IF outcome = "failure" THEN inc ELSE w
+  /\ ss' = IF outcome = "success" THEN ss + 1 ELSE ss
   /\ phase' = "decide"
   /\ UNCHANGED <<vMode, vMesh, iter, sc, spree, vFlag, vPoll, vHist, vTerm, vFinal>>
+SearchEval ==
+  \E v \in Vals, outcome \in {"failure", "incremental", "success"}, merged \in BOOLEAN, w \in Vals :
+     SearchEval_(v, outcome, merged, w)
 
 (* ---- search / poll alternation (l.1247-1284) -------------------------- *)
 DecideStep ==
@@ -211,84 +219,90 @@ DecideStep ==
 (* ---- _poll_step_ (l.1887-2265) ---------------------------------------- *)
 \* directions generated and filtered: 0..2D candidates remain.  The set is
 \* only built when the loop guard lets the loop body run at all.
-PollBegin ==
+PollBegin_(n) ==
   /\ phase = "pollbegin"
   /\ pcount' = 0 /\ pgood' = FALSE /\ pbest' = inc
-  /\ \E n \in 0 .. 2 * D :
-       premain' = IF fc < budgetEff THEN n ELSE 0
+  /\ premain' = IF fc < budgetEff THEN n ELSE 0
   /\ phase' = "polleval"
   /\ UNCHANGED <<vCount, vMode, vMesh, vCtr, vFlag, inc, vHist, vTerm, vFinal>>
+PollBegin == \E n \in 0 .. 2 * D : PollBegin_(n)
 
-PollEval ==
+\* best: this point becomes the best polled point so far (poll_improvement >
+\* poll_best_improvement, l.2154); suff: its improvement is sufficient.  Deterministic targets:
+\* best iff strictly lower than the best so far.  Noisy targets: both are decided on GP
+\* estimates, so any combination with suff => best (found by refinement checking of real
+\* noisy runs: the first version moved the incumbent only on sufficient improvements).
+PollEval_(v, best, suff, merged, w) ==
   /\ phase = "polleval"
   /\ PollMayEvaluate(fc, budgetEff, pcount, D, premain)
-  /\ \E v \in Vals, suff \in BOOLEAN, merged \in BOOLEAN :
-       /\ (merged => noisy)
-       /\ Called(v, ~merged)
-       \* det: improvement over the best so far iff strictly lower; it can be
-       \* sufficient only if it improves at all
-       /\ (~noisy /\ suff => v < pbest)
-       /\ pbest' = IF noisy
-                   THEN IF suff THEN v ELSE pbest
-                   ELSE Min2(pbest, v)
-       /\ pgood' = (pgood \/ suff)
+  /\ (merged => noisy)
+  /\ (~merged => w = v)
+  /\ Called(v, ~merged)
+  /\ (suff => best)
+  /\ (~noisy => (best = (v < pbest)))
+  /\ pbest' = IF best THEN w ELSE pbest
+  /\ pgood' = (pgood \/ suff)
   /\ pcount' = pcount + 1
   /\ premain' = premain - 1
   /\ UNCHANGED <<phase, vMode, vMesh, vCtr, vFlag, inc, vHist, vTerm, vFinal>>
+PollEval ==
+  \E v \in Vals, best \in BOOLEAN, suff \in BOOLEAN, merged \in BOOLEAN, w \in Vals :
+     PollEval_(v, best, suff, merged, w)
 
 \* polling stops: guard false, or (not complete_poll) early stop (l.2055-2076)
-PollEnd ==
+PollEnd_(stalled) ==
   /\ phase = "polleval"
   /\ \/ ~PollMayEvaluate(fc, budgetEff, pcount, D, premain)
      \/ ~CompletePoll
-  /\ \E stalled \in BOOLEAN :
-       LET kNew == MeshAfterPoll(k, pgood, AccelMesh, AccelSteps, iter,
-                                 stalled, KCap)
-       IN /\ k' = kNew
-          /\ ks' = SearchSizeAfterPoll(ks, kNew, pgood, GridMult, GridNum)
+  /\ LET kNew == MeshAfterPoll(k, pgood, AccelMesh, AccelSteps, iter, stalled, KCap)
+     IN /\ k' = kNew
+        /\ ks' = SearchSizeAfterPoll(ks, kNew, pgood, GridMult, GridNum)
   /\ inc' = pbest               \* sloppy improvement: move iff improved
   /\ phase' = "loopend"
   /\ UNCHANGED <<vCount, vMode, vCtr, vFlag, vPoll, vHist, vTerm, vFinal>>
+PollEnd == \E stalled \in BOOLEAN : PollEnd_(stalled)
 
 (* ---- end of the loop body (l.1299-1424) ------------------------------- *)
-LoopEnd ==
+LoopEnd_(stall, incAfter) ==
   /\ phase = "loopend"
-  /\ \E stall \in BOOLEAN :
-       /\ (stall => iter > StallIters - 1)
-       /\ LET c == TermConds(fc, budgetEff, iter, MaxIter, k, KTol, stall)
-              fin == Finished(c)
-          IN /\ finished' = fin
-             /\ msg' = TermMsg(c)
-             /\ IF RecordsHistory(doPoll, fin)
-                THEN lastRec' = inc /\ nrec' = nrec + 1 /\ recVals' = recVals \cup {inc}
-                ELSE UNCHANGED vHist
-             /\ iter' = NextIter(iter, doPoll, fin)
-             /\ phase' = IF fin THEN "final" ELSE "loopbegin"
-             /\ np' = IF fin \/ doPoll \/ evald THEN 0
-                      ELSE Min2(np + 1, NonProgressBound(NTry) + 1)
+  /\ (stall => iter > StallIters - 1)
+  /\ LET c == TermConds(fc, budgetEff, iter, MaxIter, k, KTol, stall)
+         fin == Finished(c)
+     IN /\ finished' = fin
+        /\ msg' = TermMsg(c)
+        /\ IF RecordsHistory(doPoll, fin)
+           THEN lastRec' = inc /\ nrec' = nrec + 1 /\ recVals' = recVals \cup {inc}
+           ELSE UNCHANGED vHist
+        /\ iter' = NextIter(iter, doPoll, fin)
+        /\ phase' = IF fin THEN "final" ELSE "loopbegin"
+        /\ np' = IF fin \/ doPoll \/ evald THEN 0
+                 ELSE Min2(np + 1, NonProgressBound(NTry) + 1)
   \* noisy: after re-evaluating the history the incumbent may be swapped for a
   \* recorded iterate (l.1372-1411); deterministic: unchanged
-  /\ IF noisy /\ doPoll /\ iter > 0
-     THEN inc' \in (recVals \cup {inc})
-     ELSE inc' = inc
+  /\ incAfter \in (IF noisy /\ doPoll /\ iter > 0 THEN recVals \cup {inc} ELSE {inc})
+  /\ inc' = incAfter
   /\ UNCHANGED <<vCount, vMode, vMesh, sc, ss, spree, vFlag, vPoll, vFinal>>
+LoopEnd == \E stall \in BOOLEAN, incAfter \in Vals : LoopEnd_(stall, incAfter)
 
 (* ---- after the loop (l.1428-1524) ------------------------------------- *)
 \* noisy and at least one completed poll iteration: the returned point is
 \* chosen among the recorded iterates (lowest upper quantile, l.1436-1454);
 \* the final samples are taken in every noisy run
-FinalBegin ==
+FinalBegin_(incAfter) ==
   /\ phase = "final"
   /\ phase' = IF noisy /\ nfinalEff > 0 THEN "finalsample" ELSE "result"
-  /\ IF noisy /\ iter > 0 THEN inc' \in recVals ELSE inc' = inc
+  /\ incAfter \in (IF noisy /\ iter > 0 THEN recVals ELSE {inc})
+  /\ inc' = incAfter
   /\ UNCHANGED <<vCount, vMode, vMesh, vCtr, vFlag, vPoll, vHist, vTerm, vFinal>>
+FinalBegin == \E incAfter \in Vals : FinalBegin_(incAfter)
 
-FinalSample ==
+FinalSample_(v) ==
   /\ phase = "finalsample"
   /\ nfinalDone < nfinalEff
-  /\ \E v \in Vals : Called(v, FALSE)
+  /\ Called(v, FALSE)
   /\ nfinalDone' = nfinalDone + 1
   /\ UNCHANGED <<phase, vMode, vMesh, vCtr, vFlag, vPoll, inc, vHist, vTerm, resVal>>
+FinalSample == \E v \in Vals : FinalSample_(v)
 
 FinalDone ==
   /\ phase = "finalsample"
